@@ -786,7 +786,7 @@ Definition dtt_disj (s : schema) (st : list (string * object)) (t : ty) : res (t
       let bs := d_branches d in
       do single <- single_type_scalars s bs ;
       match single with
-      | Some k => Ok (TScalar (mk_attrs false (dflt a) []) k DNil [], st)
+      | Some k => Ok (TScalar (mk_attrs (nullable a) (dflt a) []) k DNil [], st)
       | None =>
           let name := join "Or" (map type_name bs) in
           let ref := TRef (mk_attrs (nullable a || has_null_type bs) DNil (hints a)) (s_pkg s) name in
